@@ -489,8 +489,44 @@ func (b *c10Batch) flush(r *Run) {
 		return
 	}
 	r.Case(fmt.Sprintf("combine batch of %d histories: %s", len(b.items), b.desc),
-		fmt.Sprintf("chk_combine_all %s %s", coqSegTable(b.table), coqList(b.items)))
+		fmt.Sprintf("chk_combine_text %s \"%s\"", coqSegTable(b.table), strings.Join(b.items, "/")))
 	b.items = nil
+}
+
+// compactCase is the text form "<ixs>|<step>;<step>…" of one history and its
+// (projected) trace, see Model/Combiner.v; ok=false if it cannot be written so.
+func compactCase(table []segVal, hist []int, tr [][][]int) (string, bool) {
+	if len(table) > 50 || len(hist) == 0 {
+		return "", false
+	}
+	var sb strings.Builder
+	for _, ix := range hist {
+		sb.WriteByte(byte('A' + ix))
+	}
+	sb.WriteByte('|')
+	for j, cbs := range tr {
+		if j > 0 {
+			sb.WriteByte(';')
+		}
+		for k, cb := range cbs {
+			if k > 0 {
+				sb.WriteByte(',')
+			}
+			if len(cb) == 0 {
+				return "", false
+			}
+			for _, id := range cb {
+				if id < 0 || id > len(hist) {
+					return "", false
+				}
+				if id > 0 {
+					id = hist[id-1] + 1
+				}
+				sb.WriteByte(byte('A' + id))
+			}
+		}
+	}
+	return sb.String(), true
 }
 
 // one history: run, judge, count, emit.  modelCase: also a model case (batched when b != nil).
@@ -518,11 +554,13 @@ func c10One(r *Run, table []segVal, tkey string, hist []int, bucket string, b *c
 		return obs
 	}
 	if b != nil {
-		b.items = append(b.items, fmt.Sprintf("(%s, %s)", coqNatList(hist), coqTrace(hist, obs.Trace)))
-		if len(b.items) >= 150 {
-			b.flush(r)
+		if txt, ok := compactCase(table, hist, obs.Trace); ok {
+			b.items = append(b.items, txt)
+			if len(b.items) >= 400 {
+				b.flush(r)
+			}
+			return obs
 		}
-		return obs
 	}
 	r.Case("combine "+histInput(table, hist), fmt.Sprintf("chk_combine_proj %s %s %s (Ok %s)", coqSegTable(table), coqNatList(hist), coqNatList(proj), coqTrace(proj, obs.Trace)))
 	return obs
@@ -536,47 +574,53 @@ func tableKey(t []segVal) string {
 	return sb.String()
 }
 
-// referenceCases: for each message key of the table, the callbacks the
-// implementation made at the steps whose input carries that key must be what
-// the single-message reference combiner does on that sub-history.
+// referenceCases emits ONE model case for the history: the callback trace of
+// the keyed combiner and, for each message key of the table, the callbacks the
+// implementation made at the steps whose input carries that key — which must be
+// what the single-message reference combiner and the set-style specification
+// do on that sub-history.
 func referenceCases(r *Run, table []segVal, hist []int, obs combineObs) {
 	if obs.PanicAt >= 0 {
 		return
 	}
-	type k struct {
-		src, dst pdu.Address
-		ref      uint16
-	}
-	keyOf := func(s segVal) (k, bool) {
-		h := pdu.UserDataHeader(s.UDH).ConcatenatedHeader()
-		if h == nil {
-			return k{}, false
+	proj := projOf(table, hist)
+	var refs []string
+	// the set-style specification is quadratic in the message size: 255-part messages go through the trace only
+	if len(table) <= 60 && len(hist) <= 90 {
+		type k struct {
+			src, dst pdu.Address
+			ref      uint16
 		}
-		return k{s.Src, s.Dst, h.Reference}, true
-	}
-	seen := map[k]bool{}
-	for ki, s := range table {
-		kk, ok := keyOf(s)
-		if !ok || seen[kk] {
-			continue
-		}
-		seen[kk] = true
-		var sub [][][]int
-		for j, ix := range hist {
-			if k2, ok2 := keyOf(table[ix]); ok2 && k2 == kk {
-				sub = append(sub, obs.Trace[j])
+		keyOf := func(s segVal) (k, bool) {
+			h := pdu.UserDataHeader(s.UDH).ConcatenatedHeader()
+			if h == nil {
+				return k{}, false
 			}
+			return k{s.Src, s.Dst, h.Reference}, true
 		}
-		r.Case(fmt.Sprintf("set-spec key-of-entry-%d %s", ki, histInput(table, hist)),
-			fmt.Sprintf("chk_setspec %s %s %s %d%%nat %s", coqSegTable(table), coqNatList(hist), coqNatList(projOf(table, hist)), ki, coqTrace(projOf(table, hist), sub)))
-		r.Case(fmt.Sprintf("reference key-of-entry-%d %s", ki, histInput(table, hist)),
-			fmt.Sprintf("chk_reference %s %s %s %d%%nat %s", coqSegTable(table), coqNatList(hist), coqNatList(projOf(table, hist)), ki, coqTrace(projOf(table, hist), sub)))
+		seen := map[k]bool{}
+		for ki, s := range table {
+			kk, ok := keyOf(s)
+			if !ok || seen[kk] {
+				continue
+			}
+			seen[kk] = true
+			var sub [][][]int
+			for j, ix := range hist {
+				if k2, ok2 := keyOf(table[ix]); ok2 && k2 == kk {
+					sub = append(sub, obs.Trace[j])
+				}
+			}
+			refs = append(refs, fmt.Sprintf("(%d%%nat, %s)", ki, coqTrace(proj, sub)))
+		}
 	}
+	r.Case("combine+reference+set-spec "+histInput(table, hist),
+		fmt.Sprintf("chk_history %s %s %s %s %s", coqSegTable(table), coqNatList(hist), coqNatList(proj), coqTrace(proj, obs.Trace), coqList(refs)))
 }
 
 func corrC10(r *Run) {
 	r.Import("Model.CombinerRun")
-	r.PerShard(120)
+	r.PerShard(80)
 	r.Rule = "arrival histories of deliver_sm PDUs through pdu.CombineMultipartDeliverSM: corpus (pre-repair witnesses) first; " +
 		"all distinct orderings of the segments of m concurrent messages of N parts (m,N small) with duplicated segments, over every adversarial key set; " +
 		"random histories beyond (more messages, up to 255 parts, plain PDUs, malformed numbering, mixed 8/16-bit forms); " +
@@ -775,9 +819,12 @@ func corrC10(r *Run) {
 		if lenient {
 			bucket = "random/malformed-numbering"
 		}
-		obs := c10One(r, table, tableKey(table), hist, bucket, nil, true)
-		if i%6 == 0 {
+		obs := c10One(r, table, tableKey(table), hist, bucket, nil, i%3 != 0)
+		if i%3 == 0 {
 			referenceCases(r, table, hist, obs)
+			if obs.PanicAt >= 0 {
+				r.Case("combine "+histInput(table, hist), fmt.Sprintf("chk_combine %s %s Panic", coqSegTable(table), coqNatList(hist)))
+			}
 		}
 		if i == 0 {
 			r.Sample(map[string]interface{}{"op": "combine", "keys": name, "history": hist, "trace": fmt.Sprint(obs.Trace)})
